@@ -73,6 +73,12 @@ func (ch *dagChannel) load(c channel) error {
 
 func (ch *dagChannel) reportValues(ins map[string]any) error {
 	if ch.Skipped {
+		// the node will never run: a stream handed to it has no reader, and left open it keeps its source open
+		for _, v := range ins {
+			if sr, ok := v.(streamReader); ok {
+				sr.close()
+			}
+		}
 		return nil
 	}
 
@@ -117,6 +123,15 @@ func (ch *dagChannel) reportSkip(keys []string) bool {
 		}
 	}
 	ch.Skipped = allSkipped
+	if allSkipped {
+		// values that arrived before the last predecessor reported its skip are dropped: close their streams
+		for k, v := range ch.Values {
+			if sr, ok := v.(streamReader); ok {
+				sr.close()
+			}
+			delete(ch.Values, k)
+		}
+	}
 
 	return allSkipped
 }
